@@ -150,6 +150,7 @@ func runC08(c *core.Ctx) core.Meta {
 	checkWavefrontFormation(c, prov, "R08.3")
 
 	checkWGDistribution(c, prov, "R08.4")
+	checkFilteredCountWholeGrid(c, "R08.10")
 
 	return core.Meta{Level: "other",
 		Explanation: "Structural clauses of the grid partition: one ceil(grid/wg) formula (same dimension, recognised form) at every counting site of the grid builder, the driver and both register initialisations; partial sizes min(grid - id*wg, wg) per dimension, x-fastest enumeration and spawning bounded by the current sizes; wavefront membership keyed on in-group id / 64 with lane bit id % 64 and first flat id quotient*64, the in-group id formula and its inverse decomposition in both modes' lane-id initialisation; the multi-GPU filter's flattening and half-open cumulative ranges. Shared with C02: identical initial registers in both modes (R02.2).",
@@ -718,4 +719,61 @@ func checkWavefrontFormation(c *core.Ctx, prov *core.Prov, rule string) {
 		}
 	}
 
+}
+
+// checkFilteredCountWholeGrid (R08.10, shared with C18 as R18.11): NumWG of a filtered launch
+// (one member GPU's share of a unified device) is found by asking the filter about every
+// work-group of the grid. The counting loops of countWG are left only through their loop tests:
+// the filter accepts a run that is contiguous in NextWG's order (x fastest), not in the order the
+// counting loops happen to use, so an early exit "once the run has been left" counts one column
+// of a 2-D grid - the placement algorithm stops after that many and the launch reports completion
+// with most of the member's share never run.
+func checkFilteredCountWholeGrid(c *core.Ctx, rule string) {
+	st := c.Rule(rule, "the work-group count of a filtered launch is taken over the whole grid: every loop of gridBuilderImpl.countWG is left only through its own loop test (no edge from inside a loop body to the outside, no return inside a loop). An early exit tied to the filter's answers counts a prefix in the counting loops' own order, which is not the order the filter's range is contiguous in", 3)
+	fn := c.MustFunc(rule, kernelsPkg, "gridBuilderImpl.countWG")
+	if fn == nil {
+		return
+	}
+	c.MarkAnalysed(fn)
+	for _, h := range fn.Blocks {
+		loop := map[*ssa.BasicBlock]bool{h: true}
+		var stack []*ssa.BasicBlock
+		for _, p := range h.Preds {
+			if h.Dominates(p) {
+				stack = append(stack, p)
+			}
+		}
+		if len(stack) == 0 {
+			continue
+		}
+		for len(stack) > 0 {
+			x := stack[len(stack)-1]
+			stack = stack[:len(stack)-1]
+			if loop[x] {
+				continue
+			}
+			loop[x] = true
+			stack = append(stack, x.Preds...)
+		}
+		st.Instances++
+		var bad ssa.Instruction
+		for b := range loop {
+			last := b.Instrs[len(b.Instrs)-1]
+			if _, isRet := last.(*ssa.Return); isRet {
+				bad = last
+			}
+			if b == h {
+				continue
+			}
+			for _, s := range b.Succs {
+				if !loop[s] {
+					bad = last
+				}
+			}
+		}
+		st.Ob(bad == nil)
+		if bad != nil {
+			c.ReportAt(rule, fn, bad.Pos(), "count-loop-left-early", "countWG leaves a counting loop from inside its body: the filtered work-group count covers only part of the grid, HasNext turns false after that many work-groups and the kernel is reported complete while the rest of this GPU's share never ran (a 2-D kernel on the second GPU of a unified device)")
+		}
+	}
 }
